@@ -643,7 +643,8 @@ def job_remove(j, seed):
     obs, cands = [], []
     case = {'kind': 'remove'}
     model.math = __import__('harness.c16_models', fromlist=['SymMath']).SymMath()
-    da, xs, ys, vs = _data(sc, 4)
+    NPT = 3  # grid points: every placement of the four window bounds relative to them is a path
+    da, xs, ys, vs = _data(sc, NPT)
     data = sc.DataArray(sc.values(da.data) if False else V.Variable(_arr=da.data._a.copy(), dims=('x',), unit=sc.Unit('dimensionless'), dtype=sc.DType.float64), coords=dict(da.coords))
     peak = model.LorentzianModel(prefix='peak_')
     bkg = model.PolynomialModel(degree=1, prefix='bkg_')
@@ -654,7 +655,15 @@ def job_remove(j, seed):
     wl, wh = C.sym_var('wl'), C.sym_var('wh')
     mk = lambda assess, lo_, hi_: fp.FitResult(aic=sc.scalar(0.0), assessment=assess, background=bkg, message='', p_value=sc.scalar(1.0), peak=peak, popt=popt,  # noqa: E731
                                                red_chisq=sc.scalar(1.0), window=sc.array(dims=['range'], values=[lo_, hi_]))
-    results = [mk(fp.FitAssessment.success, wl, wh), mk(fp.FitAssessment.p_too_small, xs[0], xs[3])]
+    # a second successful result with its own window and parameters: windows of neighbouring peaks may overlap, and in the
+    # overlap both fitted peaks are subtracted
+    A2, mu2, s2 = C.sym_var('A2'), C.sym_var('mu2'), C.sym_var('s2', sign='+')
+    C.CTX.assume(s2 >= Fraction(1, 10**6))
+    popt2 = {**popt, 'peak_amplitude': sc.scalar(A2, variance=1.0), 'peak_loc': sc.scalar(mu2, variance=1.0), 'peak_scale': sc.scalar(s2, variance=1.0)}
+    wl2, wh2 = C.sym_var('wl2'), C.sym_var('wh2')
+    second = fp.FitResult(aic=sc.scalar(0.0), assessment=fp.FitAssessment.success, background=bkg, message='', p_value=sc.scalar(1.0), peak=peak, popt=popt2,
+                          red_chisq=sc.scalar(1.0), window=sc.array(dims=['range'], values=[wl2, wh2]))
+    results = [mk(fp.FitAssessment.success, wl, wh), mk(fp.FitAssessment.p_too_small, xs[0], xs[-1]), second]
     C.CTX.fork_timeout_ms = 2000
 
     def run():
@@ -662,7 +671,7 @@ def job_remove(j, seed):
         out = rp.remove_peaks(data, results)
         return out, {b.id for b in V.WRITE_LOG}
 
-    paths = C.explore(run, max_paths=200)
+    paths = C.explore(run, max_paths=600)
     from symex import terms as T
     for k, p in enumerate(paths):
         if p.exc is not None or p.inconclusive:
@@ -672,17 +681,19 @@ def job_remove(j, seed):
             continue
         out, written = p.value
         good = C.TRUE
-        for i in range(4):
+        for i in range(NPT):
             inside = (xs[i] >= wl) & (xs[i] < wh)
+            inside2 = (xs[i] >= wl2) & (xs[i] < wh2)
             with C.oracle():
                 pk = A * s / C.R(T.PI()) / ((xs[i] - mu) ** 2 + s * s)
+                pk2 = A2 * s2 / C.R(T.PI()) / ((xs[i] - mu2) ** 2 + s2 * s2)
             o = out.data.values[i]
-            good = good & ((inside & (o == ys[i] - pk)) | (~inside & (o == ys[i])))
+            good = good & ((inside & inside2 & (o == ys[i] - pk - pk2)) | (inside & ~inside2 & (o == ys[i] - pk)) | (~inside & inside2 & (o == ys[i] - pk2)) | (~inside & ~inside2 & (o == ys[i])))
         ob = C.prove(f'remove:path{k}:unchanged outside successful windows, minus the fitted peak inside', good, pc=p.pc, timeout_ms=20000)
         obs.append(ob_dict(ob))
         if ob.status == 'violated':
             cands.append(('C17:remove:values', case, 'values'))
-        argb = {data.data._buf.id, data.coords['x']._buf.id, *[v._buf.id for v in popt.values()]}
+        argb = {data.data._buf.id, data.coords['x']._buf.id, *[v._buf.id for v in popt.values()], *[v._buf.id for v in popt2.values()]}
         unchanged = all((a - b).t.is_zero() for a, b in zip(data.data.values, ys, strict=True))
         ob = C.prove(f'remove:path{k}:input not modified', C.B.const(not (argb & written) and unchanged), pc=p.pc)
         obs.append(ob_dict(ob))
@@ -912,6 +923,21 @@ def replay_real(case):
                 bad.append(f'window [{lo_}, {hi_}): point x={x[i_]} outside the window changed from {y[i_]!r} to {out.values[i_]!r}')
             elif not np.allclose(out.values, exp, rtol=1e-12, atol=0):
                 bad.append(f'window [{lo_}, {hi_}): inside values are not data - peak')
+        # two successful results whose windows overlap: both peaks are subtracted in the overlap
+        for (l1, h1), (l2, h2) in (((2.5, 9.5), (6.5, 14.5)), ((3.0, 8.0), (8.0, 12.0)), ((2.0, 15.0), (5.0, 9.0))):
+            def res_(l_, h_, amp_):
+                po = {'peak_amplitude': sc.scalar(amp_, variance=1.0), 'peak_loc': sc.scalar((l_ + h_) / 2, variance=1.0), 'peak_scale': sc.scalar(2.0, variance=1.0),
+                      'bkg_a0': sc.scalar(5.0), 'bkg_a1': sc.scalar(0.1)}
+                return peaks.FitResult(aic=sc.scalar(0.0), assessment=peaks.FitAssessment.success, background=bk, message='', p_value=sc.scalar(1.0), peak=pk, popt=po,
+                                       red_chisq=sc.scalar(1.0), window=sc.array(dims=['range'], values=[l_, h_]))
+            out = peaks.remove_peaks(plain, [res_(l1, h1, 3.0), res_(l2, h2, 7.0)])
+            exp = y.copy()
+            for (l_, h_), amp_ in (((l1, h1), 3.0), ((l2, h2), 7.0)):
+                m_ = (x >= l_) & (x < h_)
+                exp = exp - np.where(m_, amp_ * 2.0 / np.pi / ((x - (l_ + h_) / 2) ** 2 + 4.0), 0.0)
+            if not np.allclose(out.values, exp, rtol=1e-12, atol=0):
+                i_ = int(np.argmax(abs(out.values - exp)))
+                bad.append(f'windows [{l1}, {h1}) and [{l2}, {h2}): at x={x[i_]} the result is {out.values[i_]!r}, data minus the fitted peaks of the windows containing it is {exp[i_]!r}')
     elif kind in ('windows', 'loop', 'stats', 'remove'):
         da = mkdata(300)
         est = sc.array(dims=['x'], values=[2.0, 5.0, 5.6, 9.9])
